@@ -15,6 +15,8 @@ class Instance:
             'd': {'t': 'and', 'a': [P('dd'), P('g')]},                       # empty for the colours where g is false
             'e': {'t': 'and', 'a': [P('ee'), {'t': 'not', 'a': P('g')}]},    # non-empty only where d is empty
             'f': P('ee'),
+            's1': {'t': 'and', 'a': [{'t': 'expr', 'e': ' & '.join(f'v{i}' for i in range(n))}, P('g')]},     # one single state, for the colours where g holds
+            's0': {'t': 'and', 'a': [{'t': 'expr', 'e': ' & '.join(f'!v{i}' for i in range(n))}, {'t': 'not', 'a': P('g')}]},
             'empty': {'t': 'empty'}, 'full': {'t': 'unit'},
         }
 
